@@ -296,7 +296,11 @@ pub fn link_cores(cores: Vec<CoreUnit>) -> Result<LinkOutput, CompilationError> 
         ));
     }
 
-    for (pkg, unit) in by_name.iter() {
+    // in name order, so that the package named in the error does not depend on hashing
+    let mut names: Vec<&String> = by_name.keys().collect();
+    names.sort();
+    for pkg in names {
+        let unit = &by_name[pkg];
         for (dep, expected_hash) in unit.deps.iter() {
             let Some(dep_unit) = by_name.get(dep) else {
                 return Err(compile_error(format!(
